@@ -46,7 +46,7 @@ CONF = {
     "C08": dict(kinds={"accept", "consumed", "tree", "fn", "position"},
                 quick=[("ws", {"ws_inject": True}, 1.0), MIX, SUITE], thorough=[("ws", {"ws_inject": True}, 1.0), ("include", {"ws_inject": True}, 0.3), MIXT, SUITE]),
     "C09": dict(kinds={"position", "boundary", "stringpos"},
-                quick=[("position", {"huge_inputs": True, "unicode_heavy": True}, 1.0), MIX, SUITE], thorough=[("position", {"huge_inputs": True, "unicode_heavy": True}, 1.0), ("ws", {"ws_inject": True}, 0.3), MIXT, SUITE]),
+                quick=[("position", {"huge_inputs": True, "unicode_heavy": True}, 1.0), ("strings", {"ws_inject": True}, 0.5), MIX, SUITE], thorough=[("position", {"huge_inputs": True, "unicode_heavy": True}, 1.0), ("strings", {"ws_inject": True}, 0.5), ("ws", {"ws_inject": True}, 0.3), MIXT, SUITE]),
     "C10": dict(kinds={"errpos", "errpos_far", "errspec", "errspec_sentinel"},
                 quick=[("errors", {}, 0.8), ("leftrec", {}, 0.3), MIX, SUITE], thorough=[("errors", {}, 1.0), ("core", {}, 1.0), ("leftrec", {}, 0.5), ("memo", {}, 0.3), MIXT, SUITE]),
     "C13": dict(kinds={"variant", "accept", "tree", "position"},
